@@ -467,6 +467,9 @@ func (cl *cluster) apply(ev string) {
 		cl.nFaults += bits(mask)
 		cl.nReverts++
 		cl.revert(ev, mask, before)
+	case "RevertTo":
+		cl.nReverts++
+		cl.revertTo(ev, 0, before, atoi(f[1]))
 	case "MonFail":
 		b := cl.bes[atoi(f[1])]
 		b.monitoring = false
@@ -925,6 +928,9 @@ func (cl *cluster) read(ev string, mask int, before controller.VerifView, ncalls
 
 func (cl *cluster) snapshot(ev string, mask int, before controller.VerifView) {
 	name := fmt.Sprintf("u%d", cl.nSnaps)
+	if cl.cfg.PrefixNames {
+		name = "u" + strings.Repeat("1", cl.nSnaps) // u1, u11, u111: every older name is a prefix of every newer one
+	}
 	var got string
 	err := cl.guard(ev, func() error { var e error; got, e = cl.api().Snapshot(name); return e })
 	cl.observe("%s -> %v", ev, err != nil)
@@ -982,7 +988,12 @@ func (cl *cluster) snapshot(ev string, mask int, before controller.VerifView) {
 // revert: the volume is reverted to the newest volume snapshot that was reported successful, with the revert call of
 // the replicas in mask failing.  A replica whose revert failed leaves service; the others read back the snapshot.
 func (cl *cluster) revert(ev string, mask int, before controller.VerifView) {
-	gs := cl.goodSnaps[len(cl.goodSnaps)-1]
+	cl.revertTo(ev, mask, before, len(cl.goodSnaps)-1)
+}
+
+// revertTo: the target is the k-th volume snapshot that was reported successful (the newest one for the event Revert).
+func (cl *cluster) revertTo(ev string, mask int, before controller.VerifView, k int) {
+	gs := cl.goodSnaps[k]
 	full := "volume-snap-" + gs.name + ".img"
 	rw, wo, _ := modesOf(before)
 	headsBefore := map[int]string{}
@@ -1009,6 +1020,7 @@ func (cl *cluster) revert(ev string, mask int, before controller.VerifView) {
 		for id := gs.at + 1; id <= cl.nWrites; id++ {
 			cl.undone[id] = true
 		}
+		cl.goodSnaps = cl.goodSnaps[:k+1] // newer snapshots are off the chain now
 	}
 	if !(cl.wants("c13") || cl.wants("c05") || cl.wants("c06")) {
 		return
